@@ -413,6 +413,23 @@ def run(ctx):
             flags = set(es.nodes[i]["name"] for i in es.walk() if es.k(i) == "DeclRef" and es.nodes[i].get("decl") in es.addr_taken)
             g = paths.guarded(es, s["node"], lambda f, c, pol: paths.cond_atoms(f, c, pol, subst=False)[1] is True and paths.cond_atoms(f, c, pol, subst=False)[0] in flags)
             ctx.check(r8, g, key(es, "count-speech-only"), es.where(s["node"]), "a popped non-speech frame is counted into the returned segment")
+    # the trailing partial frame belongs to the segment only if every queued frame was returned: the queue
+    # is empty *and* the last frame popped was speech (speech_end caught up with qstart_time); an empty
+    # queue alone also arises when the last queued frame was the first non-speech one
+    from .. import symx, lin as _lin8
+    oktr, ntr = True, 0
+    NS, FR = es.params[2][0], es.params[1][0]
+    for pt in symx.run_paths(es, P):
+        for i_, ev_ in enumerate(pt.events):
+            trailing = (ev_[0] == "call" and ev_[1] == "memcpy" and len(ev_[2]) == 3 and ev_[2][1] == FR) or (ev_[0] == "store" and ev_[1] == "*out_nsamp" and (NS,) in ev_[2])
+            if not trailing:
+                continue
+            ntr += 1
+            before = [x for x in pt.events[:i_] if x[0] == "branch"]
+            emp = any(x[1] == ("nz", "ep_empty(%s)" % eb) and x[2] for x in before)
+            allsp = any(x[1] == ("==",) + tuple(sorted(("%s->qstart_time" % eb, "%s->speech_end" % eb))) and x[2] for x in before)
+            oktr = oktr and emp and allsp
+    ctx.check(r8, oktr and ntr >= 1, key(es, "trailing-after-all-speech"), es.where(es.root), "the trailing partial frame is appended without knowing that the queue is empty and its last frame was speech (speech_end == qstart_time): after a final non-speech frame the caller gets samples that are not part of the segment")
     # trailing frame guard nsamp <= frame_size dominates everything after
     guards = [r for r in es.find("Return") if paths.guarded(es, r, lambda f, c, pol: paths.rel(f, c, pol, subst=False) == ("%s->frame_size" % eb, "<", es.params[2][0]))]
     ctx.check(r8, len(guards) == 1, key(es, "nsamp-guard"), es.where(es.root), "no early return for a final frame longer than frame_size")
